@@ -48,7 +48,9 @@ RULE = ("sweep: every element (119), isotope, element ion and isotope ion of the
 ASSUMPTIONS = [
     "Z <-> symbol taken from the IUPAC list embedded in this file; names are taken from the object served for Z",
     "an invalid key is 'rejected' if any exception is raised; the exception class is not judged",
-    "spellings that int() accepts for the mass number (' 56-Fe', '+56-Fe', '056-Fe') are neither generated nor judged; "
+    "spellings that int() accepts for the mass number (' 56-Fe', '+56-Fe', '056-Fe'), keys that differ from a valid key "
+    "only by surrounding white space, str keys for el[A], historical symbols (Uuo) and 'A-<name>' are neither generated "
+    "nor judged; "
     "'0-Sym' (mass number 0, which is in no isotope list) IS judged, in its own bucket",
     "el.ion[0] and non-integer keys are not generated; table.isotope(<element name>) is not judged (the class "
     "docstring of PeriodicTable mentions it, the code rejects it)",
@@ -252,7 +254,7 @@ def check_atom(T, cfg, key, other=None, other_name=None):
             yield ("c08:raised:%s:%s" % (name, cls), "%s%r route %s raised %s: %s" % (cfg, key, name, type(e).__name__, e))
             continue
         if y is not x:
-            yield ("c08:identity:%s:%s" % (name, cls),
+            yield ("c08:identity:%s:%s" % ("pickle" if name.startswith("pickle") and name[6:].isdigit() else name, cls),
                    "%s%r: route %s returned %r (id %x), canonical object is %r (id %x)"
                    % (cfg, key, name, y, id(y), x, id(x)))
     # the object carries the key
@@ -386,8 +388,8 @@ def invalid_keys(T, Zs=None):
         out.append((kind, "%s(%r)" % (how, arg), thunk, {"kind": "invalid", "bad": kind, "how": how, "arg": arg}))
 
     if Zs is None:
-        cands = _letters() + ["", " ", "Fe ", " Fe", "Fe\n", "properties", "list", "symbol", "name", "isotope", "_element",
-                              "__class__", "__dict__", "__init__", "__doc__", "Uuo", "Uut", "iron", "deuterium", "H1",
+        cands = _letters() + ["", " ", "properties", "list", "symbol", "name", "isotope", "_element",
+                              "__class__", "__dict__", "__init__", "__doc__", "iron", "deuterium", "H1",
                               "2H", "Fe2", "He3"]
         cands += [a for a in dir(T) if a not in valid_syms]
         seen = set()
@@ -400,7 +402,7 @@ def invalid_keys(T, Zs=None):
             add(kind.replace("symbol", "isotope-sym"), "table.isotope", s, lambda s=s: T.isotope(s))
             add(kind.replace("symbol", "isotope-Asym"), "table.isotope", "1-" + s, lambda s=s: T.isotope("1-" + s))
         for n in sorted(valid_names):
-            vs = [n.capitalize(), n.upper(), n.title(), n + " ", " " + n, n[:-1], n + "s", n[0].upper() + n[1:], n.swapcase()]
+            vs = [n.capitalize(), n.upper(), n.title(), n[:-1], n + "s", n[0].upper() + n[1:], n.swapcase()]
             for v in vs:
                 if v in valid_names or v in seen:
                     continue
@@ -411,7 +413,8 @@ def invalid_keys(T, Zs=None):
                 add("name:symbol", "table.name", s, lambda s=s: T.name(s))
         for n in sorted(valid_names):
             add("symbol:name", "table.symbol", n, lambda n=n: T.symbol(n))
-        for s, As in (("D", (1, 2, 3, 4)), ("T", (1, 2, 3, 4))):
+        # 'A-D' with A the deuterium mass number itself is left unjudged
+        for s, As in (("D", (1, 3, 4, 5)), ("T", (1, 2, 4, 5))):
             for A in As:
                 add("isostr:DT-number", "table.isotope", "%d-%s" % (A, s), lambda A=A, s=s: T.isotope("%d-%s" % (A, s)))
         Zs = range(119)
@@ -426,12 +429,10 @@ def invalid_keys(T, Zs=None):
             add("getitem:undefined-A", "table[%d].__getitem__" % Z, A, lambda A=A, el=el: el[A])
         add("isostr:zero", "table.isotope", "0-%s" % sym, lambda sym=sym: T.isotope("0-" + sym))
         add("getitem:zero", "table[%d].__getitem__" % Z, 0, lambda el=el: el[0])
-        add("getitem:str", "table[%d].__getitem__" % Z, str(lo), lambda el=el, lo=lo: el[str(lo)])
         A0 = isos[len(isos) // 2] if isos else 1
         for s in ("%s-%d" % (sym, A0), "%d-%s-x" % (A0, sym), "%d-%s-" % (A0, sym), "-%d-%s" % (A0, sym),
                   "%d--%s" % (A0, sym), "%d-%s" % (A0, sym.lower() if sym.lower() not in valid_syms else sym + "x"),
-                  "%d-%s" % (A0, el.name), "%d.0-%s" % (A0, sym), "%d%s" % (A0, sym), "%s%d" % (sym, A0),
-                  "%d-%s%d" % (A0, sym, A0), "x%d-%s" % (A0, sym), "%d- %s" % (A0, sym), "%d-%s " % (A0, sym)):
+                  "%d%s" % (A0, sym), "%s%d" % (sym, A0), "%d-%s%d" % (A0, sym, A0), "x%d-%s" % (A0, sym)):
             add("isostr:malformed", "table.isotope", s, lambda s=s: T.isotope(s))
         ions = set(el.ions)
         for c in range(-10, 11):
@@ -479,9 +480,6 @@ def task_invalid(ctx, cfg):
 # ----------------------------------------------------------------------
 # machine: operation lists run in a forked pristine interpreter
 TBL = ["public", "T1", "T2"]
-LOOKS = ["number", "symbol", "name", "isotope-sym", "attr", "iter", "module-symbol", "module-name",
-         "getitem", "isostr", "add_isotope", "via-symbol", "DT-attr", "DT-symbol", "DT-isotope", "DT-name",
-         "ion", "ion-via-symbol", "ion-via-isostr", "ion-via-DT", "canonical"]
 COPIES = ["copy", "deepcopy", "deepcopy-dict-key", "pickle-list-twice"]
 BADS = ["charge", "isotope", "isostr", "symbol-case", "name-case", "attribute"]
 
@@ -497,8 +495,8 @@ def op_strategy(pool):
     idx = st.integers(0, 2)
     tbl = st.sampled_from(["public", "public", "public", "T1", "T1", "T2"])
     ops = st.one_of(
-        st.tuples(st.just("look"), tbl, st.sampled_from(LOOKS), idx),
-        st.tuples(st.just("look"), tbl, st.sampled_from(["ion", "getitem", "isostr", "symbol", "number", "canonical"]), idx),
+        st.tuples(st.just("look"), tbl, st.integers(0, 23), idx),
+        st.tuples(st.just("look"), tbl, st.integers(0, 23), idx),
         st.tuples(st.just("pickle"), tbl, st.integers(0, pickle.HIGHEST_PROTOCOL), idx),
         st.tuples(st.just("copy"), tbl, st.sampled_from(COPIES), idx),
         st.tuples(st.just("change"), tbl, tbl, idx),
@@ -509,6 +507,12 @@ def op_strategy(pool):
         st.tuples(st.just("iter"), tbl, idx),
     ).map(list)
     return st.tuples(st.lists(pool.atom(), min_size=1, max_size=3), st.lists(ops, min_size=2, max_size=30)).map(list)
+
+
+def _pick_route(T, key, is_public, r):
+    """The r-th applicable route (mod their number) to *key*; 'canonical' is one of them."""
+    rs = routes(T, key, is_public) + [("canonical", lambda: canonical(T, key))]
+    return rs[r % len(rs)]
 
 
 class _Machine(object):
@@ -541,7 +545,7 @@ class _Machine(object):
                 if other != k and y is x:
                     raise Violation("c08:machine:shared-object:" + cls, "%s%r and %s%r are one object" % (tname, key, other[0], other[1]))
         elif self.registry[k] is not x:
-            raise Violation("c08:machine:identity:%s:%s" % (how, cls),
+            raise Violation("c08:machine:identity:%s:%s" % (how.split(":")[0] if how.startswith("pickle") else how, cls),
                             "%s%r reached by %s is %r (id %x); first seen as id %x"
                             % (tname, key, how, x, id(x), id(self.registry[k])))
         for attr, want in expected_attrs(self.T(tname), key).items():
@@ -567,10 +571,8 @@ class _Machine(object):
             T = self.T(tname)
             key = keys[op[-1] % len(keys)] if kind not in ("bad",) else keys[op[3] % len(keys)]
             if kind == "look":
-                table_routes = dict(routes(T, key, tname == "public"))
-                table_routes["canonical"] = lambda: canonical(T, key)
-                r = op[2] if op[2] in table_routes else "canonical"
-                self.see(tname, key, table_routes[r](), "look:" + r)
+                name, thunk = _pick_route(T, key, tname == "public", op[2])
+                self.see(tname, key, thunk(), "look:" + name)
             elif kind == "pickle":
                 x = canonical(T, key)
                 self.see(tname, key, x, "canonical")
@@ -631,17 +633,17 @@ class _Machine(object):
             if what == "isotope":
                 desc, thunk = "%r[%d]" % (el, a), (lambda: el[a])
             else:
-                forms = ["%d-%s" % (a, sym), "%s-%d" % (sym, A or lo), "%d-%s-x" % (A or lo, sym), "%d-D" % (1 + r % 4)]
+                forms = ["%d-%s" % (a, sym), "%s-%d" % (sym, A or lo), "%d-%s-x" % (A or lo, sym), ["1-D", "3-D", "4-D", "1-T", "2-T", "4-T"][r % 6]]
                 s = forms[(r // 7) % len(forms)]
                 desc, thunk = "table.isotope(%r)" % s, (lambda: T.isotope(s))
         elif what == "symbol-case":
-            vs = [v for v in (sym.lower(), sym.upper(), sym.swapcase(), sym + " ", sym[0] + "x") if v not in ZOF and v not in ("D", "T")]
+            vs = [v for v in (sym.lower(), sym.upper(), sym.swapcase(), sym[0] + "x", sym + "q") if v not in ZOF and v not in ("D", "T")]
             s = vs[r % len(vs)]
             fn = [T.symbol, T.isotope][(r // 5) % 2]
             desc, thunk = "table.%s(%r)" % (fn.__name__, s), (lambda: fn(s))
         elif what == "name-case":
             n = el.name
-            vs = [n.capitalize(), n.upper(), n + " ", n[:-1]]
+            vs = [n.capitalize(), n.upper(), n.swapcase(), n[:-1]]
             s = vs[r % len(vs)]
             desc, thunk = "table.name(%r)" % s, (lambda: T.name(s))
         else:
@@ -718,6 +720,10 @@ def check_machine(ctx, value):
     if "error" in res:
         raise RuntimeError("machine child failed:\n" + res["error"])
     cls = sorted(set("op:" + o[0] for o in ops))
+    keys = [_spec_key(a) for a in atoms]
+    cls += sorted(set("look:" + _pick_route(None, keys[o[3] % len(keys)], o[1] == "public", o[2])[0]
+                      for o in ops if o[0] == "look") | set("bad:" + o[2] for o in ops if o[0] == "bad")
+                  | set("copy:" + o[2] for o in ops if o[0] == "copy"))
     if res.get("ok"):
         cls += ["tables:%d" % len(res["tables"])]
     from ..atoms import spec_class
@@ -754,7 +760,7 @@ def tasks(tier):
     if tier == "quick":
         out += [("machine-%d" % k, task_machine, dict(n=400, preimport=bool(k % 2))) for k in range(4)]
     else:
-        out += [("machine-%d" % k, task_machine, dict(n=6000, preimport=bool(k % 2))) for k in range(8)]
+        out += [("machine-%d" % k, task_machine, dict(n=2500, preimport=bool(k % 2))) for k in range(12)]
     return out
 
 
